@@ -227,13 +227,38 @@ def coq_eval(pid, shards, header, timeout=1500):
         paths.append(p)
 
     def run(p):
-        rc, out, err, dt = sh(["coqc", "-noglob", "-Q", COQ, "V", "-Q", d, "Cases", p], cwd=d, timeout=timeout)
+        # big list literals (thousands of strain sections) need a deep stack in coqc
+        rc, out, err, dt = sh(["bash", "-c", f"ulimit -s unlimited 2>/dev/null || ulimit -s 1000000; "
+                                             f"exec coqc -noglob -Q {COQ} V -Q {d} Cases {p}"],
+                              cwd=d, timeout=timeout)
         if rc != 0:
             return out, (err or out)[-1500:]
         return out, None
 
     with concurrent.futures.ThreadPoolExecutor(max_workers=NCPU) as ex:
         return list(ex.map(run, paths))
+
+
+def balance_shards(items, size, nshards=None, budget=None, per_item=None):
+    """Greedy longest-first packing of [items] into at most [nshards] shards by size(item).
+    Items larger than [per_item], or beyond the total [budget], are returned as skipped."""
+    nshards = nshards or NCPU
+    kept, skipped, tot = [], [], 0
+    for it in items:
+        sz = size(it)
+        if (per_item and sz > per_item) or (budget and tot + sz > budget):
+            skipped.append(it)
+        else:
+            kept.append((sz, it))
+            tot += sz
+    order = sorted(range(len(kept)), key=lambda i: -kept[i][0])
+    bins = [[0, []] for _ in range(min(nshards, max(1, len(kept))))]
+    for i in order:
+        b = min(bins, key=lambda b: b[0])
+        b[0] += kept[i][0]
+        b[1].append(i)
+    shards = [[kept[i][1] for i in sorted(b[1])] for b in bins if b[1]]
+    return shards, skipped
 
 
 def parse_eval_list(out):
